@@ -51,6 +51,25 @@ def main():
             return 2
         cases += r.json_lines()
         r.stdout = ""
+    # the window algebra for one note and all integers: TLAPS proof of SlicesProof.tla (re-checked on every run)
+    import re
+    import shutil
+    import subprocess
+    proved = None
+    tlapm = shutil.which("tlapm")
+    if tlapm is None:
+        print("MACHINERY-FAILURE growth=G01 tlapm is not on PATH")
+        return 2
+    pdir = tlc.workdir("g01/tlaps")
+    for m in ("SliceNote.tla", "SlicesProof.tla"):
+        shutil.copy(os.path.join(tlc.SPECS, m), pdir)
+    pr = subprocess.run([tlapm, "--threads", "4", "--cleanfp", "SlicesProof.tla"], capture_output=True, text=True, timeout=1500, cwd=pdir)
+    m = re.search(r"All (\d+) obligations? proved", pr.stdout + pr.stderr)
+    shutil.rmtree(pdir, ignore_errors=True)
+    if pr.returncode != 0 or not m:
+        print("MACHINERY-FAILURE growth=G01 tlapm did not prove SlicesProof.tla:\n%s" % (pr.stdout + pr.stderr)[-1200:])
+        return 2
+    proved = int(m.group(1))
     deviations = {}
     first = {}
     n = 0
@@ -103,7 +122,7 @@ def main():
     ev = {"growth_id": "G01", "spec": "Slices.tla / SlicesCases.tla", "tier": tier,
           "tlc": [{"distinct_states": r.distinct, "states_generated": r.generated, "depth": r.depth, "wall_s": round(r.wall_s, 1),
                    "actions": {k: list(v) for k, v in r.coverage.items()}} for r in runs],
-          "scenarios_replayed": n, "deviations": deviations, "first_of_each": first, "wall_s": round(time.time() - t0, 1)}
+          "tlaps_obligations_proved": proved, "scenarios_replayed": n, "deviations": deviations, "first_of_each": first, "wall_s": round(time.time() - t0, 1)}
     with open(os.path.join(out, "G01.json"), "w") as f:
         json.dump(ev, f, indent=1, default=str)
     for k, v in sorted(deviations.items()):
